@@ -315,10 +315,21 @@ func c01Units(ctx *core.Ctx) []core.Unit {
 						}
 						return fmt.Sprintf("%x", h.Sum(nil)[:12])
 					}
-					want := digest(multiproof.VerifGroup(fs, pwe, zs))
+					f0 := make([][]fr.Element, len(fs))
+					for i := range fs {
+						f0[i] = append([]fr.Element(nil), fs[i]...)
+					}
+					want := digest(multiproof.VerifGroup(f0, append([]fr.Element(nil), pwe...), append([]uint8(nil), zs...)))
 					name := fmt.Sprintf("group(n=%d, zs=%v) NumCPU=%d", n, zpat[:n], cpu)
 					st := core.Explore(r, core.SchedSpec{Name: name, API: "groupPolynomialsByEvaluationPoint", Check: "c01.grouping_schedule",
-						Body: func() string { return digest(multiproof.VerifGroup(fs, pwe, zs)) }, Expect: want, Mode: "dpor", Opt: explore.Options{DataBudget: -1, MaxExecs: 200000}})
+						Body: func() string {
+							// fresh inputs in every execution: an execution must not see what an earlier one did to its arguments
+							f2 := make([][]fr.Element, len(fs))
+							for i := range fs {
+								f2[i] = append([]fr.Element(nil), fs[i]...)
+							}
+							return digest(multiproof.VerifGroup(f2, append([]fr.Element(nil), pwe...), append([]uint8(nil), zs...)))
+						}, Expect: want, Mode: "dpor", Opt: explore.Options{DataBudget: -1, MaxExecs: 200000, Deadline: schedDeadline(ctx)}})
 					r.Nontrivial += int64(st.Complete)
 					r.Note(fmt.Sprintf("distinct_outcomes_v%d", variant), len(st.Outcomes))
 				}
